@@ -397,7 +397,15 @@ Definition setitem (s : heap) (p : nat) (key : bytes) (c : nat) : res heap :=
   end.
 
 (* MerkleNode.__delitem__ ; (state, error) : an exception may leave the
-   invalidation done *)
+   invalidation done.  `self[name]` goes through the class's __getitem__: for a
+   Directory the name b"" is the directory ITSELF (an entry named b"" can only
+   come from a bulk update), whose parent link to itself does not exist:
+   ValueError, after the invalidation. *)
+Definition self_lookup (x : node) (p : nat) (name : bytes) (c : nat) : nat :=
+  match kind x, name with
+  | KDir, [] => p
+  | _, _ => c
+  end.
 Definition raw_delitem (s : heap) (p : nat) (name : bytes) : heap * option err :=
   match get s p with
   | Err e => (s, Some e)
@@ -408,7 +416,7 @@ Definition raw_delitem (s : heap) (p : nat) (name : bytes) : heap * option err :
           match inval p s with
           | Err e => (s, Some e)
           | Ok s1 =>
-              match remove_parent by_id s1 c p with
+              match remove_parent by_id s1 (self_lookup x p name c) p with
               | Err e => (s1, Some e)
               | Ok s2 => (upd p (fun x => set_kids (kdel name (kids x)) x) s2, None)
               end
@@ -580,6 +588,10 @@ Definition ranked (rank : nat -> nat) (s : heap) : Prop :=
 Definition acyclic (s : heap) : Prop := exists rank, decreasing rank s.
 
 Definition plain (key : bytes) : Prop := key <> [] /\ ~ In SLASH key.
+(* no Directory has an entry named b"" (item assignment refuses that name; only a bulk update with the key b"",
+   which is not a plain name, can create one) *)
+Definition no_empty_name (s : heap) : Prop :=
+  forall n x, nth_error s n = Some x -> kind x = KDir -> kget [] (kids x) = None.
 
 Section Guards.
 Variable NH : bytes -> list entry -> bytes.
@@ -592,6 +604,7 @@ Definition guard (s : heap) (o : op) : Prop :=
   match o with
   | OUpdate p l => NoDup (map fst l) /\ forall name c, In (name, c) l -> plain name /\ c < length s
   | OWrite _ _ => False     (* a guarded history contains no out-of-band write: see C10_force_restores *)
+  | ODel _ _ => no_empty_name s
   | _ => True
   end.
 Fixpoint guarded (s : heap) (h : list op) : Prop :=
